@@ -707,6 +707,7 @@ def unit_init(fitted, set_base, speedup):
 
     def lib():
         L = index_lib()
+        L.list_shapes = True
 
         @L.fn("check_missing_label", "check_equal_missing_label", "check_type", "check_consistent_length")
         def _noop(E, st, args, kw, node):
